@@ -3,6 +3,7 @@
 //!   fvharness search <Cxx> <seed> <n>   evaluates the property itself on the real code with an independent oracle
 mod util;
 mod c05;
+mod c18;
 
 fn main() {
     let args: Vec<String> = std::env::args().collect();
@@ -19,6 +20,8 @@ fn main() {
     match (mode, prop) {
         ("corr", "C05") => c05::corr(seed, n),
         ("search", "C05") => c05::search(seed, n),
+        ("corr", "C18") => c18::corr(seed, n),
+        ("search", "C18") => c18::search(seed, n),
         _ => {
             eprintln!("fvharness: unknown mode/property {} {}", mode, prop);
             std::process::exit(2);
